@@ -78,6 +78,10 @@ def r2(ctx):
                     t, args, it = b2
                     full = t["f"].get("full", "") + " " + (t["f"].get("res") or "")
                     if a == "iter" and "AuthorHeads" in full:
+                        # (role-aware since round 13: the heads iterated are the receiver's own, the lookup is in the other side's -
+                        # a function that swaps the roles finds no answer here and fails closed)
+                        if it.tokname(args[0]).strip("&*") != "self":
+                            return None
                         return E.Tok("self.iter")
                     if a == "into_iter":
                         return args[0]
@@ -89,7 +93,9 @@ def r2(ctx):
                             return E.Some(("tuple", [E.href("author0"), E.href("ts_ours0")]))
                         return E.NONE
                     if a == "get" and "AuthorHeads" in full:
-                        who = it.tokname(args[0])
+                        who = it.tokname(args[0]).strip("&*")
+                        if who != "other" or it.tokname(args[1]).strip("&*") != "author":
+                            return None
                         return E.Some(E.Tok("ts_theirs")) if known else E.NONE
                     if a == "filter":
                         state["filter"] = args[1]
@@ -121,14 +127,22 @@ def r2(ctx):
     want = {("unknown", None): "count=1", ("known", "Less"): "count=0", ("known", "Equal"): "count=0", ("known", "Greater"): "count=1"}
     ctx.check(rows == want, "C13.R2", h.path, "news-iff-strictly-newer-or-unknown-author",
               "(peer knows the author, cmp(ours, theirs)) -> news count for that author: %s; spec: flagged exactly for a strictly newer timestamp or an unknown author" % rows, h.sp)
-    g = [t for b in f.family(h.path) for _, t in b.calls() if callee_matches(t, r"heads::AuthorHeads::get$")]
+    # (the lookup may sit in a private helper of has_news_for - RF32's `is_older_than` -: count it in the function's scope)
+    if rows == want:
+        # the evaluated rows decide the roles as well (ours = self.iter(), theirs = other.get(that author)): the three placement clauses
+        # below were structural duplicates and false-alarmed on RF32 (the lookup moved into a helper method called on `other`)
+        ctx.ok("C13.R2", h.path, "single-lookup-of-their-head", "decided by the evaluated rows (role-aware oracle)", h.sp)
+        ctx.ok("C13.R2", h.path, "iterates-self", "decided by the evaluated rows (role-aware oracle)", h.sp)
+        ctx.ok("C13.R2", h.path, "lookup-in-other", "decided by the evaluated rows (role-aware oracle)", h.sp)
+    g = [] if rows == want else [t for b in f.scope(h.path, prefix="heads::") for _, t in b.calls() if callee_matches(t, r"heads::AuthorHeads::get$")]
     okg = len(g) == 1
-    ctx.check(okg, "C13.R2", h.path, "single-lookup-of-their-head", "%d lookups of the other side's head" % len(g), h.sp)
-    it = [t for _, t in h.calls() if callee_matches(t, r"heads::AuthorHeads::iter$")]
-    ok = len(it) == 1 and {o.data[1] for o in trace(h, it[0]["a"][0]) if o.kind == "arg"} == {"self"}
-    ctx.check(ok, "C13.R2", h.path, "iterates-self", "ours = self.iter()", h.sp)
+    if rows != want:
+        ctx.check(okg, "C13.R2", h.path, "single-lookup-of-their-head", "%d lookups of the other side's head" % len(g), h.sp)
+        it = [t for _, t in h.calls() if callee_matches(t, r"heads::AuthorHeads::iter$")]
+        ok = len(it) == 1 and {o.data[1] for o in trace(h, it[0]["a"][0]) if o.kind == "arg"} == {"self"}
+        ctx.check(ok, "C13.R2", h.path, "iterates-self", "ours = self.iter()", h.sp)
     if okg:
-        gb = [b for b in f.family(h.path) if any(t is g[0] for _, t in b.calls())][0]
+        gb = [b for b in f.scope(h.path, prefix="heads::") if any(t is g[0] for _, t in b.calls())][0]
         from .common import lift_origins
         recv = lift_origins(f, gb, trace(gb, g[0]["a"][0]), h)
         ok = {o.data[1] for o in recv if o.kind == "arg"} == {"other"} and all(o.kind == "arg" for o in recv)
